@@ -3,7 +3,8 @@
    try_zeroed family of Model/Alloc.v over an allocator that may fail.  The bytes themselves come
    from alloc_zeroed / write_bytes and are observed by the harness on memory pre-filled with 0xA5. *)
 From Coq Require Import NArith List Bool String.
-From BM Require Import Base.Outcome Base.Prims Base.Own Base.Layout Model.Alloc Model.ZeroGuard Proofs.AllocProofs.
+From BM Require Import Base.Outcome Base.Prims Base.Own Base.Layout Model.Alloc Model.ZeroGuard Proofs.AllocProofs Proofs.AllocGen.
+From BM.Gen Require Alloc.
 Import ListNotations.
 
 Theorem C12_fill_zeroes : forall panics ids,
@@ -39,6 +40,31 @@ Theorem C12_zeroed_vec : forall T n ok, match try_zeroed_vec T n ok with
   end.
 Proof. exact zeroed_vec_char. Qed.
 
+(* the allocators as the translator regenerates them from src/allocation.rs (Gen/Alloc.v): for every
+   environment — every answer the global allocator may give, null included — and every length,
+   overflowing ones included, they return (no panic, no UB) exactly the modelled decision, so the two
+   theorems above describe the translated code; the panicking forms are their unwrap *)
+Theorem C12_generated : forall E T n,
+  Gen.Alloc.try_zeroed_box E T = Ret (zres_value E (try_zeroed_box T (alloc_ok E (mkLayout (sz T) (al T))))) /\
+  Gen.Alloc.try_zeroed_slice_box E T n = Ret (zres_value E (try_zeroed_slice_box T n (slice_alloc_ok E T n))) /\
+  Gen.Alloc.try_zeroed_vec E T n = Ret (zres_value E (try_zeroed_vec T n (slice_alloc_ok E T n))).
+Proof. intros E T n. exact (conj (gen_try_zeroed_box E T) (conj (gen_try_zeroed_slice_box E T n) (gen_try_zeroed_vec E T n))). Qed.
+
+Theorem C12_generated_unwrap : forall E T n,
+  Gen.Alloc.zeroed_box E T = (r <- Gen.Alloc.try_zeroed_box E T ;; unwrap_unit r) /\
+  Gen.Alloc.zeroed_slice_box E T n = (r <- Gen.Alloc.try_zeroed_slice_box E T n ;; unwrap_unit r) /\
+  Gen.Alloc.zeroed_vec E T n = (r <- Gen.Alloc.try_zeroed_vec E T n ;; unwrap_unit r).
+Proof. intros E T n. exact (conj (gen_zeroed_box E T) (conj (gen_zeroed_slice_box E T n) (gen_zeroed_vec E T n))). Qed.
+
+Example C12_generated_nonvacuous :
+  let failing := mkEnv (fun _ => false) (fun _ => 0%N) (fun _ _ => 0%N) in
+  let working := mkEnv (fun _ => false) (fun _ => 0%N) (fun _ _ => 4096%N) in
+  Gen.Alloc.try_zeroed_slice_box failing (mkTy 4 4) 3 = Ret (Err tt) /\
+  Gen.Alloc.try_zeroed_slice_box working (mkTy 4 4) 3 = Ret (Ok (mkCont 4096 3 3)) /\
+  Gen.Alloc.try_zeroed_vec working (mkTy 0 1) 5 = Ret (Ok (mkCont DANGLING 5 USIZE_MAX)) /\
+  Gen.Alloc.try_zeroed_vec working (mkTy 8 8) (2 ^ 62) = Ret (Err tt).
+Proof. repeat split; vm_compute; reflexivity. Qed.
+
 Example C12_nonvacuous :
   fill_zeroes_drop (fun id => Nat.eqb id 1) (map Old [0; 1; 2]%nat) = mkZrun [Zeroed; Zeroed; Old 2] [0; 1]%nat true.
 Proof. reflexivity. Qed.
@@ -48,3 +74,5 @@ Print Assumptions C12_dropped_once.
 Print Assumptions C12_fill_zeroes_plain.
 Print Assumptions C12_zeroed_slice_box.
 Print Assumptions C12_zeroed_vec.
+Print Assumptions C12_generated.
+Print Assumptions C12_generated_unwrap.
